@@ -86,6 +86,18 @@ def fq_monitor(m, ops, real):
 METHODS = {"m_r": ("r", None), "m_s": ("s", None), "m_st": ("s", 7)}
 
 
+GATE_BOUND_S = 10.0       # REAL seconds a worker may take from one gate to the next (pure computation in between)
+MAX_SUBMISSIONS = 3       # `_applyCommand` calls ONE wrapper call may make before the harness refuses more
+
+
+class Stuck(RuntimeError):
+    """a worker did not come back to a gate within the bound"""
+
+
+class _Refused(BaseException):
+    """raised into a wrapper call that keeps submitting the same command"""
+
+
 class Worker(object):
     """A real caller thread, stopped at gates."""
 
@@ -110,8 +122,9 @@ class Worker(object):
         self.decision = decision
         self.arrived.clear()
         self.go.set()
-        if not self.arrived.wait(20):
-            raise RuntimeError("worker %d did not reach a gate" % self.t)
+        if not self.arrived.wait(GATE_BOUND_S):
+            self.stuck = True
+            raise Stuck("worker %d (call %d) did not reach a gate within %.0f real seconds" % (self.t, self.k, GATE_BOUND_S))
 
     def body(self):
         rs = self.rs
@@ -212,6 +225,7 @@ class RealSys(object):
                 return self.body("m_st", a, k)
 
         self.forwards = []
+        self.submissions = {}
         self.o = Obj()
         self.real_apply = self.o._applyCommand
         self.o._applyCommand = self.gated_apply
@@ -250,6 +264,12 @@ class RealSys(object):
         w = self.by_ident.get(threading.get_ident())
         if w is None:
             return self.real_apply(command, callback, commandType)
+        key = (w.t, w.k)
+        self.submissions[key] = self.submissions.get(key, 0) + 1
+        if self.submissions[key] > 1:
+            self.log.append(["resubmit", w.t, w.k])        # no such event in the model
+            if self.submissions[key] > MAX_SUBMISSIONS:
+                raise _Refused("call %r keeps submitting" % (key,))
         w.gate("g1")
         n0 = len(self.dq)
         at = len(self.log)
@@ -278,12 +298,17 @@ class RealSys(object):
         # let blocked threads go: answer everything, time everything out
         for w in self.workers.values():
             n = 0
-            while w.state[0] != "done" and n < 10000:
-                n += 1
-                if w.state[0] == "g2":
-                    w.release(False)
-                else:
-                    w.release(None)
+            try:
+                while w.state[0] != "done" and n < 200 and not getattr(w, "stuck", False):
+                    n += 1
+                    if w.state[0] == "g2":
+                        w.release(False)
+                    else:
+                        w.release(None)
+            except Stuck:
+                pass                                          # abandoned (daemon thread); reported by run_schedule
+            if w.state[0] != "done":
+                w.stuck = True
         so.AsyncResult = self.old_ar
         self.o._applyCommand = lambda *a, **k: None
         qc.close_node(self.o)             # destroy + the notifier's pipe (appendEntriesUseBatch=False)
@@ -497,11 +522,17 @@ def run_schedule(so, fid, sched):
                 oks.append(rs.do_rput(st[1], None if len(st) == 2 else (st[2], st[3])))
         snap = rs.snapshot()
         log = list(rs.log)
+    except Stuck as e:
+        err = "STUCK: %s" % e
+        snap = {"queue": [], "pend": [], "counter": 0, "threads": []}
+        log = list(rs.log)
     finally:
         rs.stop()
     for w in rs.workers.values():
-        if w.error:
+        if w.error and "_Refused" not in w.error:
             err = "worker %d: %s" % (w.t, w.error)
+        if getattr(w, "stuck", False) and not err:
+            err = "STUCK: worker %d (call %d) never finished" % (w.t, w.k)
     return labels, oks, log, snap, err
 
 
@@ -613,7 +644,19 @@ def monitors(sched, log, snap):
             fired.setdefault((ev[1], ev[2]), []).append((ev[3], ev[4]))
         elif ev[0] == "ret":
             ret.setdefault((ev[1], ev[2]), []).append(ev[3])
-    for c in set(enq) | set(full):
+    resub = set((e[1], e[2]) for e in log if e[0] == "resubmit")
+    seen_open = set()
+    for ev in log:
+        # C02: after an outcome that leaves the command's fate open (LEADER_CHANGED) the same call must not be submitted
+        # a second time — both copies may be applied.  (A re-submission after a definite refusal is harmless for the
+        # property; it shows as a difference to the model only.)
+        if ev[0] == "fired" and ev[4] == 5:
+            seen_open.add((ev[1], ev[2]))
+        elif ev[0] == "resubmit" and (ev[1], ev[2]) in seen_open:
+            v.append(("replicated.sync:command-submitted-again-after-open-outcome",
+                      "call %r was answered LEADER_CHANGED and the wrapper submitted its command again" % ((ev[1], ev[2]),)))
+            break
+    for c in (set(enq) | set(full)) - resub:
         if enq.get(c, 0) + full.get(c, 0) != 1:
             v.append(("queue.put:call-enqueued-or-refused-not-exactly-once", "%r enq=%d full=%d" % (c, enq.get(c, 0), full.get(c, 0))))
     for c, n in deq.items():
@@ -622,7 +665,7 @@ def monitors(sched, log, snap):
     if order_deq != order_enq[:len(order_deq)] or order_enq[len(order_deq):] != [q[0] for q in snap["queue"]]:
         v.append(("queue.get:not-fifo", "enq %r deq %r left %r" % (order_enq, order_deq, snap["queue"])))
     for c, l in fired.items():
-        if len(l) > 1:
+        if len(l) > 1 and not any(e[0] == "resubmit" and (e[1], e[2]) == c for e in log):
             v.append(("queue.callback:fired-more-than-once", "%r: %r" % (c, l)))
     # a refused call that has a callback (its own `callback=` or the sync AsyncResult) is told QUEUE_FULL
     for c in full:
@@ -750,7 +793,10 @@ def _run(ctx, so):
                                                    "steps": sc["steps"]},
                                          "model": {k: x[0] for k, x in d.items()}, "impl": {k: x[1] for k, x in d.items()},
                                          "note": err or "lock-step schedule: real SyncObj + real threads vs PSO.Queue.Sys.step"})
-        for sig, what in monitors(sc, log, snap):
+        extra = []
+        if err and err.startswith("STUCK"):
+            extra.append(("replicated.sync:call-did-not-return", "%s; events so far %r" % (err, log[-6:])))
+        for sig, what in extra + monitors(sc, log, snap):
             if len(res["violations"]) < 3 and sig not in [x["signature"] for x in res["violations"]]:
                 res["violations"].append({"signature": sig, "what": what,
                                           "replay": {"kind": "schedule", "max": sc["max"], "batch": sc["batch"],
